@@ -192,7 +192,11 @@ func runBubble(tp *core.Tape, e *core.Env, sc *WScenario, which cyc.Which, res *
 			c := w.Cycles[doneCycles]
 			doneCycles++
 			tr := w.Trace(c)
-			cyc.Check(tr, which, cyc.EnvReporter{E: e})
+			if e.Property == "C19" {
+				cyc.Check(tr, which, cyc.PerReplicaReporter{E: e})
+			} else {
+				cyc.Check(tr, which, cyc.EnvReporter{E: e})
+			}
 			w.describeCycle(c, tr)
 			if e.Failed() {
 				return
